@@ -71,6 +71,16 @@ type Case struct {
 	// racecomm: Workers goroutines x Rounds session lifetimes on one real Libp2pCommunication, in a
 	// child process built with -race
 	Workers int `json:"workers,omitempty"`
+	// srace: registration of streams concurrent with the release of their session (srace.go)
+	Level  string `json:"level,omitempty"` // manager | comm
+	N0     int    `json:"n0,omitempty"`
+	Other  bool   `json:"other,omitempty"`
+	During []SROp `json:"during,omitempty"`
+	After  []SROp `json:"after,omitempty"`
+	// long: a duplicate request for a session that outlived TssTimeout through a retry (long.go);
+	// Err: subset | comm | tss | coordinator; When: just | late
+	Err  string `json:"err,omitempty"`
+	When string `json:"when,omitempty"`
 }
 
 type Round struct {
@@ -115,6 +125,9 @@ type Obs struct {
 	// racecomm: data race reports (incl. "fatal error: concurrent map ..."), subscriptions left in
 	// the table, streams handed out by the host and never closed, sessions run
 	RC *RaceCommObs `json:"rc,omitempty"`
+	// srace, long
+	SR   *SRaceObs `json:"sr,omitempty"`
+	Long *LongObs  `json:"long,omitempty"`
 }
 
 // ---- environment --------------------------------------------------------------------------------
@@ -176,7 +189,8 @@ func retClass(err error) string {
 	}
 	var ce *tss.CoordinatorError
 	switch {
-	case strings.Contains(err.Error(), "process already pending"):
+	case strings.Contains(strings.ToLower(err.Error()), "pending"):
+		// ("process already pending", however it is worded: "process <id> already pending" ...)
 		return "pending"
 	case errors.As(err, &ce):
 		return "coordinator"
@@ -752,6 +766,10 @@ func run(c Case) Obs {
 		return runCommW(c)
 	case "racecomm":
 		return runRaceComm(c)
+	case "srace":
+		return runSRace(c)
+	case "long":
+		return runLongFuture(c)
 	}
 	panic("unknown kind " + c.Kind)
 }
@@ -780,6 +798,10 @@ func gen(r *vgen.Rng, tier string) []Case {
 	} else {
 		startWatchdog(4 * time.Minute)
 	}
+	// sessions that outlive the TSS timeout (they mostly sleep: started together, in the background)
+	out = append(out, genLong(tier)...)
+	// registration of streams concurrent with the release of their session
+	out = append(out, genSRace(r, tier)...)
 	rounds := 4
 	nstreams := 120
 	if tier == "thorough" {
@@ -1103,6 +1125,43 @@ func coq(c Case, o Obs) string {
 		}
 		return "RaceComm " + vgen.Nat(c.Workers) + " " + vgen.Nat(c.Rounds) + " " + vgen.Nat(rc.Reports) + " " + vgen.Nat(rc.Leftover) +
 			" " + vgen.Nat(rc.Unreleased) + " " + vgen.Nat(rc.Sessions) + " " + vgen.Bool(rc.Ran)
+	case "srace":
+		sr := o.SR
+		if sr == nil {
+			sr = &SRaceObs{}
+		}
+		nx := len(sr.Closed)
+		var ops []string
+		lin := sr.Lin
+		// (the final releases of every session are the model's own: ops ++ release_all S)
+		if len(lin) >= srS && sr.Note == "" {
+			lin = lin[:len(lin)-srS]
+		}
+		for _, op := range lin {
+			switch op.Op {
+			case "add":
+				ops = append(ops, fmt.Sprintf("OAdd %d%%nat %d%%nat %d%%nat", op.S, op.P, op.X))
+				if op.X+1 > nx {
+					nx = op.X + 1
+				}
+			case "get":
+				ops = append(ops, fmt.Sprintf("OGet %d%%nat %d%%nat", op.S, op.P))
+			case "release":
+				ops = append(ops, fmt.Sprintf("ORelease %d%%nat", op.S))
+			}
+		}
+		closed := make([]int, nx)
+		copy(closed, sr.Closed)
+		return fmt.Sprintf("SRace %d%%nat %d%%nat %d%%nat ", srS, srP, nx) + vgen.List(ops) + " " + vgen.ListOf(closed, vgen.Nat) + " " + rows(sr.Left) +
+			" " + vgen.Bool(sr.Note == "")
+	case "long":
+		lo := o.Long
+		if lo == nil {
+			lo = &LongObs{}
+		}
+		ek := map[string]int{"subset": 0, "comm": 1, "tss": 2, "coordinator": 3}[c.Err]
+		return "Long " + vgen.Nat(ek) + " " + vgen.Bool(c.When == "late") + " " + vgen.Bool(lo.Reached) + " " + vgen.Bool(lo.FirstLive) + " " +
+			vgen.Bool(lo.DupAdmitted) + " " + vgen.Nat(lo.MaxLive) + " " + vgen.Bool(lo.PendAfter) + " " + vgen.Bool(lo.Reuse)
 	case "storm":
 		return "Storm " + vgen.Nat(c.N) + " " + vgen.ListOf(o.Rounds, func(r Round) string {
 			return vgen.Pair(vgen.ListOf(r.Refused, vgen.Bool), vgen.Nat(r.MaxLive))
@@ -1154,6 +1213,10 @@ func kind(c Case) string {
 			return "tear/in-close-session/" + c.Outcome + map[string]string{"entry": "-entry"}[c.Phase]
 		}
 		return "tear/in-stop/" + c.Outcome + map[string]string{"entry": "-entry"}[c.Phase]
+	case "srace":
+		return "srace/" + c.Level
+	case "long":
+		return "long/" + c.Err + "/" + c.When
 	case "commw":
 		k := "commw"
 		of, wf := false, false
